@@ -36,9 +36,8 @@ def expected_component_time(e, cname, entry, comp, freq, det):
     cls = comp["cls"]
     keys = [k for k in entry if k != "time"]
     if cls == "compute":
-        if len(keys) != 1:
-            raise Skip("multi-op-compute")
-        count, rate = val(entry[keys[0]]), freq
+        # a unit bound to several operations performs all of them: its operation count is their sum
+        count, rate = sum(val(entry[k]) for k in keys), freq
     elif cls == "intersector":
         count, rate = val(entry["intersect"]), freq
     elif cls == "sequencer":
